@@ -90,18 +90,29 @@ namespace protobuf_c {
 #pragma warning(disable:4996)
 #endif
 
+/* A decimal integer such as "-0" or "16777217" would be an int constant:
+ * "-0" loses the sign of zero.  Make it a floating constant. */
+static std::string FloatingConstant(const char *buf) {
+  std::string rv = buf;
+  if (rv.find_first_of(".eEna") == std::string::npos)
+    rv += ".0";
+  return rv;
+}
+
 std::string SimpleFtoa(float f) {
   char buf[100];
-  snprintf(buf,sizeof(buf),"%.*g", FLT_DIG, f);
+  /* 9 significant digits identify every float (FLT_DIG = 6 does not) */
+  snprintf(buf,sizeof(buf),"%.9g", f);
   buf[sizeof(buf)-1] = 0;		/* should NOT be necessary */
-  return buf;
+  return FloatingConstant(buf);
 }
 
 std::string SimpleDtoa(double d) {
   char buf[100];
-  snprintf(buf,sizeof(buf),"%.*g", DBL_DIG, d);
+  /* 17 significant digits identify every double (DBL_DIG = 15 does not) */
+  snprintf(buf,sizeof(buf),"%.17g", d);
   buf[sizeof(buf)-1] = 0;		/* should NOT be necessary */
-  return buf;
+  return FloatingConstant(buf);
 }
 
 std::string CamelToUpper(compat::StringView name) {
